@@ -9,6 +9,6 @@ trap 'rm -rf "$D"' EXIT
 mkdir -p "$D/repo"
 (cd /repo && git ls-files -z yatiml setup.py setup.cfg | xargs -0 cp --parents -t "$D/repo") || exit 2
 (cd "$D/repo" && git init -q . && git apply --whitespace=nowarn "$PATCH") || { echo "PATCH DID NOT APPLY: $PATCH"; exit 3; }
-VERIF_REPO="$D/repo" "$@"
+VERIF_REPO="$D/repo" VERIF_EVIDENCE_DIR="$D/evidence" VERIF_REPLAY_DIR="$D/replays" "$@"
 rc=$?
 exit $rc
